@@ -94,6 +94,14 @@ fn unescape(p: &[u8]) {
     assert!(got[i] == want[i], "unescaped byte differs");
 }
 
+// The literal-pattern obligations must never reach the glob compiler (the pattern has no
+// unescaped metacharacter).  compile_glob_pattern is stubbed by a function that fails the
+// obligation if it is ever called: this keeps the glob crate's parser (which does not finish under
+// CBMC on symbolic bytes) out of the formula without assuming anything about it.
+fn glob_compiler_unreachable(_token: &[u8]) -> Result<glob::Pattern, &str> {
+    panic!("the glob compiler was invoked for a pattern without unescaped metacharacters");
+}
+
 // (b) rules built from patterns without unescaped metacharacters match exactly as fnmatch does
 fn literal_rule(p: &'static [u8], name: &[u8]) {
     let (meta, _, want, n) = spec_scan(p);
@@ -161,6 +169,7 @@ macro_rules! c15_literal_harness {
         #[kani::unwind(10)]
         #[kani::stub(std::arch::x86_64::__cpuid_count, stubs::verif_cpuid_stub)]
         #[kani::stub(alloc::fmt::format, stubs::verif_format_stub)]
+        #[kani::stub(crate::glob_match::compile_glob_pattern, glob_compiler_unreachable)]
         fn $name() {
             let p: &'static [u8; $plen] = Box::leak(Box::new(kani::any()));
             let name: [u8; $nlen] = kani::any();
@@ -184,6 +193,7 @@ c15_literal_harness!(c15_literal_rule_4_byte_pattern_5_byte_name, 4, 5);
 #[kani::unwind(10)]
 #[kani::stub(std::arch::x86_64::__cpuid_count, stubs::verif_cpuid_stub)]
 #[kani::stub(alloc::fmt::format, stubs::verif_format_stub)]
+#[kani::stub(crate::glob_match::compile_glob_pattern, glob_compiler_unreachable)]
 fn c15_kf_short_patterns_have_a_hash_key() {
     let p: &'static [u8; 3] = Box::leak(Box::new(kani::any()));
     let (meta, _, _, _) = spec_scan(&p[..]);
@@ -218,6 +228,7 @@ c15_hash_harness!(c15_prefix_hash_names_of_4_and_6_bytes, 4, 6);
 #[kani::unwind(10)]
 #[kani::stub(std::arch::x86_64::__cpuid_count, stubs::verif_cpuid_stub)]
 #[kani::stub(alloc::fmt::format, stubs::verif_format_stub)]
+#[kani::stub(crate::glob_match::compile_glob_pattern, glob_compiler_unreachable)]
 fn c15_canary_exact_rule_matches_something() {
     let p: &'static [u8; 5] = Box::leak(Box::new(kani::any()));
     let (meta, esc, _, n) = spec_scan(&p[..]);
